@@ -149,9 +149,9 @@ AllCirclesOnce == s.op \in {"smootherTake", "xsmootherTake"} =>
 \* the shapes: the box NrSet x NtSet x 2..9 circles x boundary mode, or exactly the shapes listed in the file IOEnv.ZSHAPES
 ShapeList == IF "ZSHAPES" \in DOMAIN IOEnv THEN ndJsonDeserialize(IOEnv.ZSHAPES) ELSE <<>>
 Init == IF ShapeList = <<>>
-        THEN \E op \in Ops, nr \in NrSet, nt \in NtSet, nc \in 0..9, dir \in BOOLEAN :
-               /\ nc <= nr - 3
-               /\ (nc < 2 => op \in {"residualGive", "residualTake"})      \* the smoothers need two circles, the residuals none
+        THEN \E op \in Ops, nr \in NrSet, nt \in NtSet, nc \in 0..14, dir \in BOOLEAN :
+               /\ nc <= nr
+               /\ ((nc < 2 \/ nc > nr - 3) => op \in {"residualGive", "residualTake"})      \* the smoothers need two circles and three radial nodes, the residuals accept any split
                /\ s = [op |-> op, nr |-> nr, nt |-> nt, nc |-> nc, dir |-> dir]
         ELSE \E op \in Ops, k \in 1..Len(ShapeList) :
                s = [op |-> op, nr |-> ShapeList[k].nr, nt |-> ShapeList[k].nt, nc |-> ShapeList[k].nc, dir |-> ShapeList[k].dir # 0]
